@@ -5,6 +5,9 @@ open EdbVerif EdbVerif.Caps EdbVerif.Gen.Caps EdbVerif.Driver
 /-!
 Line protocol (tokens separated by one blank):
 
+* `decl <name> none|mod|low <term>`    `create function <name>() … using (<term>)` with the volatility
+                                      omitted / 'Modifying' / something lower; extends the environment for
+                                      the following lines → `ok <modifying 0|1> <dmlStmt 0|1>` | `rej <class>`
 * `q query|analyze <term>`            → `ok <caps> <containsDML 0|1> <#recorded>` | `rej <class>`
 * `script <stmt> ; <stmt> ; …`        stmt = `query <term>` | `analyze <term>` | `cmd <Class> <cond>*`
                                       → `ok <group caps> <unit caps,…>` | `rej <class>`
@@ -13,7 +16,7 @@ Line protocol (tokens separated by one blank):
 * `grp <c1,c2,…>`                     → `<caps>`                 (QueryUnitGroup.append in order)
 * `mkerr <self> <allowed>`            → `<exceeds 0|1> <title|->` (check_capabilities test + make_error)
 
-term (prefix form): `L n` `V x` `O ty` `P k t…` `C f k t…` `I c t e` `S subj k shape… k filter… k order… k offlim…`
+term (prefix form): `L n` `V x` `O ty` `P k t…` `C f k t…` (f = number, or `@name` of a `decl`ared function) `I c t e` `S subj k shape… k filter… k order… k offlim…`
 `W x b body` `F x iter body` `INS ty k shape… k onconflict… k else…` `UPD subj k filter… k shape…`
 `DEL subj k filter… k order… k offlim…`.
 
@@ -40,65 +43,66 @@ def theFe : FnEnv := declareAll
     (none, [], .call 0 .nil) ] []
 
 mutual
-partial def parseQ : List String → Option (Q × List String)
+partial def parseQ (nm : List (String × Nat)) : List String → Option (Q × List String)
   | "L" :: n :: r => n.toNat?.map fun n => (.lit n, r)
   | "V" :: n :: r => n.toNat?.map fun n => (.var n, r)
   | "O" :: n :: r => n.toNat?.map fun n => (.objs n, r)
-  | "P" :: r => do let (a, r) ← parseL r; pure (.op a, r)
+  | "P" :: r => do let (a, r) ← parseL nm r; pure (.op a, r)
   | "C" :: f :: r => do
-    let f ← f.toNat?
-    let (a, r) ← parseL r
+    -- `@name`: a function declared earlier on this stream; an unknown name becomes an unknown function
+    let f ← if f.startsWith "@" then some ((nm.lookup (f.drop 1).toString).getD 1000000) else f.toNat?
+    let (a, r) ← parseL nm r
     pure (.call f a, r)
   | "I" :: r => do
-    let (c, r) ← parseQ r
-    let (t, r) ← parseQ r
-    let (e, r) ← parseQ r
+    let (c, r) ← parseQ nm r
+    let (t, r) ← parseQ nm r
+    let (e, r) ← parseQ nm r
     pure (.ifElse c t e, r)
   | "S" :: r => do
-    let (s, r) ← parseQ r
-    let (sh, r) ← parseL r
-    let (f, r) ← parseL r
-    let (o, r) ← parseL r
-    let (l, r) ← parseL r
+    let (s, r) ← parseQ nm r
+    let (sh, r) ← parseL nm r
+    let (f, r) ← parseL nm r
+    let (o, r) ← parseL nm r
+    let (l, r) ← parseL nm r
     pure (.select s sh f o l, r)
   | "W" :: x :: r => do
     let x ← x.toNat?
-    let (b, r) ← parseQ r
-    let (body, r) ← parseQ r
+    let (b, r) ← parseQ nm r
+    let (body, r) ← parseQ nm r
     pure (.withB x b body, r)
   | "F" :: x :: r => do
     let x ← x.toNat?
-    let (b, r) ← parseQ r
-    let (body, r) ← parseQ r
+    let (b, r) ← parseQ nm r
+    let (body, r) ← parseQ nm r
     pure (.forQ x b body, r)
   | "INS" :: ty :: r => do
     let ty ← ty.toNat?
-    let (sh, r) ← parseL r
-    let (oc, r) ← parseL r
-    let (el, r) ← parseL r
+    let (sh, r) ← parseL nm r
+    let (oc, r) ← parseL nm r
+    let (el, r) ← parseL nm r
     pure (.insert ty sh oc el, r)
   | "UPD" :: r => do
-    let (s, r) ← parseQ r
-    let (f, r) ← parseL r
-    let (sh, r) ← parseL r
+    let (s, r) ← parseQ nm r
+    let (f, r) ← parseL nm r
+    let (sh, r) ← parseL nm r
     pure (.update s f sh, r)
   | "DEL" :: r => do
-    let (s, r) ← parseQ r
-    let (f, r) ← parseL r
-    let (o, r) ← parseL r
-    let (l, r) ← parseL r
+    let (s, r) ← parseQ nm r
+    let (f, r) ← parseL nm r
+    let (o, r) ← parseL nm r
+    let (l, r) ← parseL nm r
     pure (.delete s f o l, r)
   | _ => none
-partial def parseL : List String → Option (QList × List String)
+partial def parseL (nm : List (String × Nat)) : List String → Option (QList × List String)
   | k :: r => do
     let k ← k.toNat?
-    parseN k r
+    parseN nm k r
   | [] => none
-partial def parseN : Nat → List String → Option (QList × List String)
+partial def parseN (nm : List (String × Nat)) : Nat → List String → Option (QList × List String)
   | 0, r => some (.nil, r)
   | k + 1, r => do
-    let (q, r) ← parseQ r
-    let (qs, r) ← parseN k r
+    let (q, r) ← parseQ nm r
+    let (qs, r) ← parseN nm k r
     pure (.cons q qs, r)
 end
 
@@ -150,12 +154,12 @@ def showReject : Reject → String
   | .volatility => "volatility"
   | .noRow => "noRow"
 
-def parseStmt (toks : List String) : Option Stmt :=
+def parseStmt (nm : List (String × Nat)) (toks : List String) : Option Stmt :=
   match toks with
-  | "query" :: r => match parseQ r with
+  | "query" :: r => match parseQ nm r with
     | some (q, []) => some (.query q)
     | _ => none
-  | "analyze" :: r => match parseQ r with
+  | "analyze" :: r => match parseQ nm r with
     | some (q, []) => some (.analyze q)
     | _ => none
   | "cmd" :: r => (parseRow r).bind kindOf |>.map .command
@@ -168,10 +172,10 @@ def splitSemis (toks : List String) : List (List String) :=
     | t :: r => go (t :: cur) acc r
   go [] [] toks
 
-def handle (line : String) : String :=
-  match line.splitOn " " with
+def handle1 (theFe : FnEnv) (nm : List (String × Nat)) (toks : List String) : String :=
+  match toks with
   | "q" :: mode :: r =>
-    match parseQ r with
+    match parseQ nm r with
     | some (q, []) =>
       let st? : Option Stmt := if mode == "query" then some (.query q)
         else if mode == "analyze" then some (.analyze q) else none
@@ -185,7 +189,7 @@ def handle (line : String) : String :=
     | _ => "bad-op"
   | "script" :: r =>
     let parts := splitSemis r
-    match parts.mapM parseStmt with
+    match parts.mapM (parseStmt nm) with
     | none => "bad-op"
     | some ss =>
       match mapE (stmtCaps theFe) ss, scriptCaps theFe ss with
@@ -222,4 +226,30 @@ def handle (line : String) : String :=
     | _, _ => "bad-op"
   | _ => "bad-op"
 
-def main : IO Unit := runStateless handle
+structure St where
+  fe : FnEnv
+  nm : List (String × Nat)
+
+def handle (st : St) (line : String) : St × String :=
+  let theFe := st.fe
+  let nm := st.nm
+  match line.splitOn " " with
+  | "decl" :: name :: vol :: r =>
+    let d? : Option (Option Bool) := match vol with
+      | "none" => some none
+      | "mod" => some (some true)
+      | "low" => some (some false)
+      | _ => none
+    match d?, parseQ nm r with
+    | some d, some (body, []) =>
+      match declare theFe d [] body with
+      | .ok fe' =>
+        match fe'[theFe.length]? with
+        | some fd => ({ fe := fe', nm := (name, theFe.length) :: nm },
+            s!"ok {if fd.modifying then 1 else 0} {if fd.dmlStmt then 1 else 0}")
+        | none => (st, "bad-op")
+      | .error e => (st, s!"rej {showReject e}")
+    | _, _ => (st, "bad-op")
+  | other => (st, handle1 theFe nm other)
+
+def main : IO Unit := runStateful ({ fe := theFe, nm := [] } : St) handle
